@@ -46,15 +46,44 @@ func lexProto(name, text string) ([]lexTok, error) {
 	return out, nil
 }
 
+// bt renders a byte string for the file and option cases: runs of printable ASCII and newlines as Coq string
+// literals under ProtoPrintCorr.sb (one lexer token each; a list of N numerals of a printed file costs the Coq parser
+// seconds), other bytes as a list of N.
+func bt(s string) string {
+	if s == "" {
+		return "[]"
+	}
+	safe := func(c byte) bool { return c == '\n' || (c >= 32 && c < 127) }
+	var segs []string
+	b := []byte(s)
+	for i := 0; i < len(b); {
+		j := i
+		for j < len(b) && safe(b[j]) == safe(b[i]) {
+			j++
+		}
+		if safe(b[i]) {
+			segs = append(segs, `(sb "`+strings.ReplaceAll(string(b[i:j]), `"`, `""`)+`")`)
+		} else {
+			segs = append(segs, vh.NList(b[i:j]))
+		}
+		i = j
+	}
+	out := segs[len(segs)-1]
+	for k := len(segs) - 2; k >= 0; k-- {
+		out = "(app " + segs[k] + " " + out + ")"
+	}
+	return out
+}
+
 func rtokTerm(t string) string {
 	c := t[0]
 	switch {
 	case c == '_' || (c >= 'a' && c <= 'z') || (c >= 'A' && c <= 'Z'):
-		return "RId " + vh.BytesTerm(t)
+		return "RId " + bt(t)
 	case c >= '0' && c <= '9', c == '.' && len(t) > 1:
-		return "RNum " + vh.BytesTerm(t)
+		return "RNum " + bt(t)
 	case c == '"' || c == '\'':
-		return "RStr " + vh.BytesTerm(t)
+		return "RStr " + bt(t)
 	}
 	return fmt.Sprintf("RSym %d", c)
 }
@@ -128,10 +157,10 @@ func tokensTerm(name, text string, parsed protoreflect.FileDescriptor) (string, 
 			return "", 0, fmt.Errorf("no token at the start of %s (%d:%d)", d.FullName(), loc.StartLine, loc.StartColumn)
 		}
 		for _, c := range loc.LeadingDetachedComments {
-			before[idx] = append(before[idx], "RDet "+vh.BytesTerm(c))
+			before[idx] = append(before[idx], "RDet "+bt(c))
 		}
 		if loc.LeadingComments != "" {
-			before[idx] = append(before[idx], "RLead "+vh.BytesTerm(loc.LeadingComments))
+			before[idx] = append(before[idx], "RLead "+bt(loc.LeadingComments))
 		}
 	}
 	parts := make([]string, 0, len(toks))
@@ -151,7 +180,7 @@ func qnameTerm(s string) string {
 	parts := strings.Split(s, ".")
 	q := make([]string, len(parts))
 	for i, p := range parts {
-		q[i] = vh.BytesTerm(p)
+		q[i] = bt(p)
 	}
 	return "[" + strings.Join(q, ";") + "]"
 }
@@ -162,7 +191,7 @@ func pnTerm(s string) string {
 		abs = "true"
 		s = s[1:]
 	}
-	return fmt.Sprintf("{| pn_abs := %s; pn_name := %s |}", abs, qnameTerm(s))
+	return fmt.Sprintf("(Build_printed_name %s %s)", abs, qnameTerm(s))
 }
 
 type fileModel struct {
@@ -219,16 +248,16 @@ func (fm *fileModel) orderDetermined(what string, ds []protoreflect.Descriptor) 
 
 func keyTerm(d protoreflect.Descriptor) string {
 	loc := d.ParentFile().SourceLocations().ByDescriptor(d)
-	return fmt.Sprintf("{| k_line := %d; k_idx := %d |}", loc.StartLine, d.Index())
+	return fmt.Sprintf("(Build_key %d %d)", loc.StartLine, d.Index())
 }
 
 func cmtTerm(d protoreflect.Descriptor) string {
 	loc := d.ParentFile().SourceLocations().ByDescriptor(d)
 	det := make([]string, len(loc.LeadingDetachedComments))
 	for i, c := range loc.LeadingDetachedComments {
-		det[i] = vh.BytesTerm(c)
+		det[i] = bt(c)
 	}
-	return fmt.Sprintf("{| c_det := [%s]; c_lead := %s |}", strings.Join(det, ";"), vh.BytesTerm(loc.LeadingComments))
+	return fmt.Sprintf("(Build_cmt [%s] %s)", strings.Join(det, ";"), bt(loc.LeadingComments))
 }
 
 func (fm *fileModel) optsTerm(d protoreflect.Descriptor) string {
@@ -248,7 +277,7 @@ func (fm *fileModel) optsTerm(d protoreflect.Descriptor) string {
 		if line < 0 {
 			fm.skip("negative option line")
 		}
-		parts[i] = fmt.Sprintf("{| o_key := {| k_line := %d; k_idx := %d |}; o_full := %s; o_name := %s; o_val := %s |}",
+		parts[i] = fmt.Sprintf("(Build_dopt (Build_key %d %d) %s %s %s)",
 			line, t.Index, qnameTerm(t.FullName), pnTerm(t.RefName), rawTerm(t.Root))
 	}
 	return "[" + strings.Join(parts, ";") + "]"
@@ -274,14 +303,14 @@ func (fm *fileModel) vtTerm(f protoreflect.FieldDescriptor) string {
 	case protoreflect.GroupKind:
 		fm.skip("group field %s", f.FullName())
 	}
-	return "(DScalar " + vh.BytesTerm(f.Kind().String()) + ")"
+	return "(DScalar " + bt(f.Kind().String()) + ")"
 }
 
 func (fm *fileModel) fieldTerm(f protoreflect.FieldDescriptor) string {
 	label := "LNone"
 	var ty string
 	if f.IsMap() {
-		ty = fmt.Sprintf("(DMapT %s %s %s)", vh.BytesTerm(f.MapKey().Kind().String()), vh.BytesTerm(string(f.Message().Name())), fm.vtTerm(f.MapValue()))
+		ty = fmt.Sprintf("(DMapT %s %s %s)", bt(f.MapKey().Kind().String()), bt(string(f.Message().Name())), fm.vtTerm(f.MapValue()))
 	} else {
 		ty = "(DSingle " + fm.vtTerm(f) + ")"
 		if f.IsList() {
@@ -297,8 +326,8 @@ func (fm *fileModel) fieldTerm(f protoreflect.FieldDescriptor) string {
 	if f.Number() < 0 {
 		fm.skip("negative field number")
 	}
-	return fmt.Sprintf("{| f_key := %s; f_cm := %s; f_label := %s; f_type := %s; f_name := %s; f_num := %d; f_json := %s; f_opts := %s |}",
-		keyTerm(f), cmtTerm(f), label, ty, vh.BytesTerm(string(f.Name())), f.Number(), vh.BytesTerm(json), fm.optsTerm(f))
+	return fmt.Sprintf("(Build_dfield %s %s %s %s %s %d %s %s)",
+		keyTerm(f), cmtTerm(f), label, ty, bt(string(f.Name())), f.Number(), bt(json), fm.optsTerm(f))
 }
 
 func (fm *fileModel) enumTerm(e protoreflect.EnumDescriptor) string {
@@ -313,10 +342,10 @@ func (fm *fileModel) enumTerm(e protoreflect.EnumDescriptor) string {
 	fm.orderDetermined(string(e.FullName()), evs)
 	for i := range vs {
 		v := e.Values().Get(i)
-		vs[i] = fmt.Sprintf("{| v_key := %s; v_cm := %s; v_name := %s; v_num := %s; v_opts := %s |}",
-			keyTerm(v), cmtTerm(v), vh.BytesTerm(string(v.Name())), vh.ZTerm(int64(v.Number())), fm.optsTerm(v))
+		vs[i] = fmt.Sprintf("(Build_dvalue %s %s %s %s %s)",
+			keyTerm(v), cmtTerm(v), bt(string(v.Name())), vh.ZTerm(int64(v.Number())), fm.optsTerm(v))
 	}
-	return fmt.Sprintf("(DEnum %s %s %s %s [%s])", keyTerm(e), cmtTerm(e), vh.BytesTerm(string(e.Name())), fm.optsTerm(e), strings.Join(vs, ";"))
+	return fmt.Sprintf("(DEnum %s %s %s %s [%s])", keyTerm(e), cmtTerm(e), bt(string(e.Name())), fm.optsTerm(e), strings.Join(vs, ";"))
 }
 
 func (fm *fileModel) msgTerm(m protoreflect.MessageDescriptor) string {
@@ -336,8 +365,8 @@ func (fm *fileModel) msgTerm(m protoreflect.MessageDescriptor) string {
 			ko, vo := fm.optsTerm(f.MapKey()), fm.optsTerm(f.MapValue())
 			if ko != "[]" || vo != "[]" {
 				_, path := splitRef(m)
-				fm.entries = append(fm.entries, fmt.Sprintf("{| eo_msg := %s; eo_field := %s; eo_key := %s; eo_value := %s |}",
-					qnameTerm(path), vh.BytesTerm(string(f.Name())), ko, vo))
+				fm.entries = append(fm.entries, fmt.Sprintf("(Build_entry_opts %s %s %s %s)",
+					qnameTerm(path), bt(string(f.Name())), ko, vo))
 			}
 		}
 	}
@@ -354,7 +383,7 @@ func (fm *fileModel) msgTerm(m protoreflect.MessageDescriptor) string {
 		}
 		fm.orderDetermined(string(o.FullName()), ofs)
 		els = append(els, o)
-		body = append(body, fmt.Sprintf("DOneof %s %s %s %s [%s]", keyTerm(o), cmtTerm(o), vh.BytesTerm(string(o.Name())), fm.optsTerm(o), strings.Join(fs, ";")))
+		body = append(body, fmt.Sprintf("DOneof %s %s %s %s [%s]", keyTerm(o), cmtTerm(o), bt(string(o.Name())), fm.optsTerm(o), strings.Join(fs, ";")))
 	}
 	for i := 0; i < m.Messages().Len(); i++ {
 		n := m.Messages().Get(i)
@@ -369,7 +398,7 @@ func (fm *fileModel) msgTerm(m protoreflect.MessageDescriptor) string {
 		body = append(body, strings.TrimSuffix(strings.TrimPrefix(fm.enumTerm(m.Enums().Get(i)), "("), ")"))
 	}
 	fm.orderDetermined(string(m.FullName()), els)
-	return fmt.Sprintf("(DMsg %s %s %s %s [%s])", keyTerm(m), cmtTerm(m), vh.BytesTerm(string(m.Name())), fm.optsTerm(m), strings.Join(body, ";"))
+	return fmt.Sprintf("(DMsg %s %s %s %s [%s])", keyTerm(m), cmtTerm(m), bt(string(m.Name())), fm.optsTerm(m), strings.Join(body, ";"))
 }
 
 func refTerm(d protoreflect.Descriptor) string {
@@ -389,10 +418,10 @@ func (fm *fileModel) serviceTerm(s protoreflect.ServiceDescriptor) string {
 		if m.IsStreamingClient() || m.IsStreamingServer() {
 			fm.skip("streaming method %s", m.FullName())
 		}
-		ms[i] = fmt.Sprintf("{| m_key := %s; m_cm := %s; m_name := %s; m_in := %s; m_out := %s; m_opts := %s |}",
-			keyTerm(m), cmtTerm(m), vh.BytesTerm(string(m.Name())), refTerm(m.Input()), refTerm(m.Output()), fm.optsTerm(m))
+		ms[i] = fmt.Sprintf("(Build_dmethod %s %s %s %s %s %s)",
+			keyTerm(m), cmtTerm(m), bt(string(m.Name())), refTerm(m.Input()), refTerm(m.Output()), fm.optsTerm(m))
 	}
-	return fmt.Sprintf("(DService %s %s %s %s [%s])", keyTerm(s), cmtTerm(s), vh.BytesTerm(string(s.Name())), fm.optsTerm(s), strings.Join(ms, ";"))
+	return fmt.Sprintf("(DService %s %s %s %s [%s])", keyTerm(s), cmtTerm(s), bt(string(s.Name())), fm.optsTerm(s), strings.Join(ms, ";"))
 }
 
 // dfileTerm renders fd as a dfile; unsupported != "" when the file uses a construct outside the model.
@@ -413,7 +442,7 @@ func dfilexTerm(fd protoreflect.FileDescriptor) (term string, entries string, un
 		if imp.IsPublic || imp.IsWeak {
 			fm.skip("public / weak import")
 		}
-		imports[i] = vh.BytesTerm(imp.Path())
+		imports[i] = bt(imp.Path())
 	}
 	// file options: the loop of printFile (known bool and string fields, in descriptor order)
 	var fopts []string
@@ -427,10 +456,10 @@ func dfilexTerm(fd protoreflect.FileDescriptor) (term string, entries string, un
 			}
 			switch f.Kind() {
 			case protoreflect.BoolKind:
-				fopts = append(fopts, fmt.Sprintf("fopt_of (%s, FBool %v)", vh.BytesTerm(string(f.Name())), refl.Get(f).Bool()))
+				fopts = append(fopts, fmt.Sprintf("fopt_of (%s, FBool %v)", bt(string(f.Name())), refl.Get(f).Bool()))
 			case protoreflect.StringKind:
 				// the typed value: the model writes the literal (fopt_token), the tie compares it with the real tokens
-				fopts = append(fopts, fmt.Sprintf("fopt_of (%s, FStr %s)", vh.BytesTerm(string(f.Name())), vh.BytesTerm(refl.Get(f).String())))
+				fopts = append(fopts, fmt.Sprintf("fopt_of (%s, FStr %s)", bt(string(f.Name())), bt(refl.Get(f).String())))
 			default:
 				fm.skip("file option %s is not printed", f.Name())
 			}
@@ -465,7 +494,7 @@ func dfilexTerm(fd protoreflect.FileDescriptor) (term string, entries string, un
 		body = append(body, strings.TrimSuffix(strings.TrimPrefix(fm.enumTerm(fd.Enums().Get(i)), "("), ")"))
 	}
 	fm.orderDetermined("the file", tops)
-	term = fmt.Sprintf("{| d_pkg := %s; d_imports := [%s]; d_fopts := [%s]; d_exts := [%s]; d_body := [%s] |}",
+	term = fmt.Sprintf("(Build_dfile %s [%s] [%s] [%s] [%s])",
 		qnameTerm(string(fd.Package())), strings.Join(imports, ";"), strings.Join(fopts, ";"), strings.Join(exts, ";"), strings.Join(body, ";"))
 	return term, "[" + strings.Join(fm.entries, ";") + "]", fm.unsupported
 }
@@ -501,7 +530,7 @@ func impTerm(fd protoreflect.FileDescriptor) string {
 	for i, p := range names {
 		q[i] = qnameTerm(p)
 	}
-	return fmt.Sprintf("{| x_types := [%s]; x_pkgs := [%s] |}", strings.Join(types, ";"), strings.Join(q, ";"))
+	return fmt.Sprintf("(Build_xsymtab [%s] [%s])", strings.Join(types, ";"), strings.Join(q, ";"))
 }
 
 // fileCase builds the c05file term of one printed file (fd printed as txt1, parsed as fd2, printed as txt2).
@@ -524,5 +553,5 @@ func fileCase(fd protoreflect.FileDescriptor, txt1 string, fd2 protoreflect.File
 	if txt2 != txt1 {
 		return "", 0, "second print differs (reported by the oracle)", nil
 	}
-	return fmt.Sprintf("CFile %s %s %s\n %s\n %s %s %s %v", impTerm(fd), d1, e1, vh.BytesTerm(txt1), t1, d2, e2, lost), n1 + len(txt1)/4, "", nil
+	return fmt.Sprintf("CFile %s %s %s\n %s\n %s %s %s %v", impTerm(fd), d1, e1, bt(txt1), t1, d2, e2, lost), n1 + len(txt1)/4, "", nil
 }
